@@ -1,12 +1,12 @@
 package dom
 
 import (
-	"os"
-	"github.com/jirenius/go-res/logger"
 	"bytes"
 	"encoding/json"
 	"errors"
 	"fmt"
+	"github.com/jirenius/go-res/logger"
+	"os"
 	"sort"
 	"strconv"
 	"strings"
